@@ -25,12 +25,13 @@ RULE = ('map layer: Hypothesis op lists (set/pop/copy/clear/query, <=30 ops) ove
         'parse(flat/block)/query/get_bindings/get_configurable/@ref/finalize-hooks with every '
         'spelling. Non-trivial = name set has a proper-suffix pair or a shared last component '
         'AND the history has a removal or a copy (map), or >=2 distinct spellings of one '
-        'parameter were used through >=2 different APIs (api). Distinct = distinct case JSON.')
+        'parameter were used through >=2 different APIs, or a configurable was registered after spellings had been used (api). Distinct = distinct case JSON.')
 ASSUMPTIONS = ['query strings are dotted identifiers; the internal terminal marker "$" is not a '
                'name and is never generated',
                'ambiguity / unknown are accepted as ValueError or LookupError']
 BUDGET = {'quick': (4, 400), 'thorough': (16, 4000)}
-FLOORS = {'map:nontrivial': (0.05, 'layer:map'), 'api:nontrivial': (0.03, 'layer:api')}
+FLOORS = {'map:nontrivial': (0.05, 'layer:map'), 'api:nontrivial': (0.03, 'layer:api'),
+          'api:late-registration': (0.1, 'layer:api')}
 TECHNIQUE = ('model-based property testing: Hypothesis-generated operation histories vs a '
              'list-of-names suffix model, plus a bounded exhaustive sweep of small name sets')
 LEVEL_TEXT = ('Generated histories of SelectorMap operations (insert, overwrite, pop, copy, clear, '
@@ -244,7 +245,7 @@ def _api_case(draw):
   cnames = [(m + '.' + k) if m else k for m, k in consts]
   # half of the operands aim at one focus parameter so that several spellings of the same
   # parameter really meet through different APIs
-  f_i = st.just(draw(_idx)) | _idx
+  f_i = st.just(draw(st.integers(0, len(names) - 1))) | st.integers(0, len(names) - 1) | _idx
   f_scope = st.just(draw(st.sampled_from(SCOPES))) | st.sampled_from(SCOPES)
   f_param = st.just(draw(st.sampled_from(['p', 'q']))) | st.sampled_from(['p', 'q'])
   op = st.one_of(
@@ -258,14 +259,50 @@ def _api_case(draw):
                                  'get_configurable', 'ref'])),
       st.tuples(st.sampled_from(['const_macro', 'const_query']), _idx, _idx),
   ).map(list)
+  late = draw(st.lists(st.tuples(st.sampled_from(MODS), st.sampled_from(FNS)), max_size=3,
+                       unique=True))
+  late = [(m + '.' + f) if m else f for m, f in late if ((m + '.' + f) if m else f) not in names]
+  if late:
+    op = st.one_of(op, op, op, st.tuples(st.just('register'), _idx).map(list))
   ops = draw(st.lists(op, min_size=1, max_size=14))
   hooks = draw(st.none() | st.tuples(_idx, _idx, _idx, st.sampled_from(SCOPES),
                                      st.sampled_from(['p', 'q']), st.booleans()).map(list))
-  return {'layer': 'api', 'names': names, 'consts': cnames, 'ops': ops, 'hooks': hooks}
+  return {'layer': 'api', 'names': names, 'late': late, 'consts': cnames, 'ops': ops,
+          'hooks': hooks}
+
+
+@st.composite
+def _late_scenario(draw):
+  """A spelling is used while unique, then a second configurable with the same suffix is
+  registered, then the same spelling is used again (through any API): it must now be rejected
+  (or, if the new name equals the spelling, resolve to the new entry)."""
+  fn = draw(st.sampled_from(FNS))
+  m1, m2 = draw(st.lists(st.sampled_from([m for m in MODS if m]), min_size=2, max_size=2,
+                         unique=True))
+  first, second = m1 + '.' + fn, draw(st.sampled_from([m2 + '.' + fn, fn]))
+  other = draw(st.sampled_from(['g', 'c.h'])) if fn != 'g' else 'c.h'
+  names = [first, other]
+  n_suffix = len(first.split('.'))
+  j = draw(st.integers(1, n_suffix - 1))          # a proper suffix of `first`
+  write = st.sampled_from(['bind_str', 'bind_tuple', 'parse_flat', 'parse_block'])
+  read = st.sampled_from(['query', 'get_bindings', 'get_configurable', 'ref', 'ref_obj'])
+  scope = draw(st.sampled_from(SCOPES))
+  ops = [[draw(write), 0, j, scope, 'p', 1]]
+  if draw(st.booleans()):
+    ops.append([draw(read), 0, j, scope, 'p'])
+  ops.append(['register', 0])
+  for _ in range(draw(st.integers(1, 3))):
+    if draw(st.booleans()):
+      ops.append([draw(write), 0, j, scope, 'p', draw(st.integers(2, 9))])
+    else:
+      ops.append([draw(read), 0, j, scope, 'p'])
+  return {'layer': 'api', 'names': names, 'late': [second], 'consts': [], 'ops': ops,
+          'hooks': None}
 
 
 def strategy():
-  return st.one_of(st.builds(lambda ops: {'layer': 'map', 'ops': ops}, _map_ops()), _api_case())
+  return st.one_of(st.builds(lambda ops: {'layer': 'map', 'ops': ops}, _map_ops()), _api_case(),
+                   _api_case(), _late_scenario())
 
 
 def _mk_probe(tag):
@@ -284,7 +321,9 @@ AMBIG = (ValueError, LookupError)
 
 
 def check_api(case):
-  names = case['names']
+  names = list(case['names'])          # registered so far (grows with 'register' ops)
+  late = list(case.get('late', []))
+  universe = names + late              # operands index into this fixed list
   labels = set()
   wrappers = {}
   for n in names:
@@ -316,25 +355,45 @@ def check_api(case):
     return overlay(scope, full).get(param, 'd' + param)
 
   def spelling(i, j):
-    full = names[i % len(names)]
+    full = universe[i % len(universe)]
     sp = suffixes(full)
     return full, sp[j % len(sp)]
 
   def scoped(scope, s):
     return (scope + '/' if scope else '') + s
 
+  def state():
+    # Every bound value, read through complete names (always unambiguous).  config_str() is not
+    # used here: once a later registration has made the spelling of a stored @reference
+    # ambiguous, config_str() itself raises (it re-parses the reference's text) -- a history the
+    # listed properties do not cover.
+    out = []
+    for (scope, full), params in sorted(model.items()):
+      for param in sorted(params):
+        out.append((scope, full, param, gin.query_parameter(f'{scoped(scope, full)}.{param}')))
+    return out
+
   def expect_error(fn, what):
-    before = gin.config_str()
+    before = state()
     try:
       fn()
     except AMBIG:
-      after = gin.config_str()
-      require(before == after, 'rejected-op-changed-config', what)
+      require(before == state(), 'rejected-op-changed-config', what)
       return
     raise Violation('not-rejected', what)
 
   for op in case['ops']:
     kind = op[0]
+    if kind == 'register':
+      # a configurable registered *after* spellings were already used: a spelling that was
+      # unique may become ambiguous (or shadowed by an exact match) from now on
+      pending = [n for n in late if n not in names]
+      if pending:
+        n = pending[op[1] % len(pending)]
+        wrappers[n] = gin.configurable(n)(_mk_probe(n))
+        names.append(n)
+        labels.add('late-registration')
+      continue
     if kind in ('bind_str', 'bind_tuple', 'parse_flat', 'parse_block'):
       _, i, j, scope, param, val = op
       full, sp = spelling(i, j)
@@ -362,6 +421,8 @@ def check_api(case):
       full, sp = spelling(i, j)
       res = m_match(names, sp)
       if kind == 'by_object':
+        if full not in names:
+          continue
         res = [full]
       if len(res) != 1:
         if kind == 'query':
@@ -470,14 +531,14 @@ def check_api(case):
   # two finalize hooks returning one parameter under two spellings must conflict
   if case['hooks']:
     i, j1, j2, scope, param, tuple_key = case['hooks']
-    full = names[i % len(names)]
+    full = names[i % len(names)]          # among the registered ones
     uniq = [s for s in suffixes(full) if m_match(names, s) == [full]]
     s1, s2 = uniq[j1 % len(uniq)], uniq[j2 % len(uniq)]
     k1 = f'{scoped(scope, s1)}.{param}'
     k2 = (scope, s2, param) if tuple_key else f'{scoped(scope, s2)}.{param}'
     gin.config.register_finalize_hook(lambda config: {k1: 1001})
     gin.config.register_finalize_hook(lambda config: {k2: 1002})
-    before = gin.config_str()
+    before = state()
     try:
       gin.finalize()
       raise Violation('hook-conflict-not-detected',
@@ -485,16 +546,17 @@ def check_api(case):
     except ValueError:
       pass
     require(not gin.config_is_locked(), 'locked-after-rejected-finalize', '')
-    require(gin.config_str() == before, 'config-changed-by-rejected-finalize', '')
+    require(state() == before, 'config-changed-by-rejected-finalize', '')
     labels.add('hooks')
     if s1 != s2:
       labels.add('hooks-different-spelling')
 
   multi = any(len({sp for _, sp in v}) >= 2 and len({a for a, _ in v}) >= 2
               for v in used.values())
-  if multi:
+  nt = multi or 'late-registration' in labels
+  if nt:
     labels.add('nontrivial')
-  return ok(['api:' + l for l in labels] + ['layer:api'], multi)
+  return ok(['api:' + l for l in labels] + ['layer:api'], nt)
 
 
 def check_case(case):
